@@ -128,6 +128,8 @@ def _same_frame(a, b):
 
 def frame_via(d, form):
     n = d.nrow
+    if form not in PROVENANCE:
+        raise ValueError(form)
     try:
         if form == "viarbind":
             out = d.head(n // 2).rbind(d.tail(n - n // 2))
@@ -135,14 +137,10 @@ def frame_via(d, form):
             out = d.slice(np.arange(n))
         elif form == "viadeepcopy":
             out = d.deepcopy()
-        elif form == "viaarrow":
-            out = DataFrame.from_arrow(d.to_arrow())
         else:
-            raise ValueError(form)
-    except ValueError:
-        raise
+            out = DataFrame.from_arrow(d.to_arrow())
     except Exception:
-        return d
+        return d   # (e.g. Arrow has no type for a column of mixed objects: pyarrow's ArrowInvalid is a ValueError)
     return out if _same_frame(d, out) else d
 
 
